@@ -42,6 +42,8 @@ type Ctx struct {
 	T    *TypeReg
 	Res  *Result
 	prf  PRF
+	// quiet suppresses distinct / counter bookkeeping (model checks run inside another monitor)
+	quiet bool
 }
 
 // Eval counts one monitored execution.
@@ -52,6 +54,9 @@ func (x *Ctx) Count(name string, n int) { x.Res.Counters[name] += n }
 
 // Distinct records a distinct non-trivial case signature.
 func (x *Ctx) Distinct(sig string) {
+	if x.quiet {
+		return
+	}
 	x.Res.distinct[x.Case.Name+"/"+x.Root.Name+"/"+sig] = true
 }
 
